@@ -41,7 +41,7 @@ Inductive tset :=
 | TSym (op : Z) (sym : Z)
 | TUnion (l : list tset)
 | TInter (l : list tset)
-| TCompl (t : tset)
+| TCompl (id : Z) (t : tset)      (* id: the harness' name of this complement (its Origin) *)
 | TNamed (i : Z).
 
 Record nonterm := mkNt { nt_name : bytes; nt_params : list Z; nt_value : expr; nt_group : Z }.
@@ -148,7 +148,7 @@ Section Names.
       | TSym op sym =>
           (if op =? 1 then s_first else if op =? 2 then s_last else if op =? 4 then s_follow
            else if op =? 3 then s_precede else []) ++ ref_name sym
-      | TCompl s => s_not ++ set_name f s
+      | TCompl _ s => s_not ++ set_name f s
       | TUnion l =>
           (fix go (l : list tset) (first : bool) : bytes :=
              match l with [] => [] | s :: r => (if first then [] else s_or) ++ set_name f s ++ go r false end) l true
